@@ -293,10 +293,12 @@ structure Result where
   header : List Str
   /-- what is left unread in the socket buffer -/
   unread : Bytes
+  /-- `recv` results that were never requested -/
+  pending : List Bytes
 deriving Repr, DecidableEq
 
-/-- the inner `while self.unread_len > 0` loop over the lines of what one `recv` delivered:
-    `(banner, header, lines not read)` -/
+/-- the inner loop body applied to successive lines: skip blank lines, stop at the first banner,
+    collect the others: `(banner, header, lines not read)` -/
 def scan (header : List Str) : List Bytes → Option Banner × List Str × List Bytes
   | [] => (none, header, [])
   | raw :: more =>
@@ -306,17 +308,36 @@ def scan (header : List Str) : List Bytes → Option Banner × List Str × List 
       | some b => (some b, header, more)
       | none => scan (header ++ [line]) more
 
-/-- `get_banner` on a connected socket that has no banner yet; the peer's data arrives as the
-    given sequence of `recv` results, after which (or at an empty one) the connection is
-    closed.  The buffer is empty whenever `recv` is called (the inner loop drains it), so every
-    `recv` result is cut into lines on its own. -/
-def getBanner (header : List Str) : List Bytes → Result
-  | [] => { banner := none, header, unread := [] }
+/-- what `while self.unread_len > 0 and self.__has_line()` can take from the buffer: the
+    complete (LF-terminated) lines, and the fragment without LF that stays buffered -/
+def cutLines : Bytes → List Bytes × Bytes
+  | [] => ([], [])
+  | b :: bs =>
+    if b = 0x0a then ([b] :: (cutLines bs).1, (cutLines bs).2)
+    else match (cutLines bs).1 with
+      | [] => ([], b :: (cutLines bs).2)
+      | l :: ls => ((b :: l) :: ls, (cutLines bs).2)
+
+/-- the peer has stopped sending (`recv` gave `s < 0`: closed, timed out or failed): the inner
+    loop runs with `s < 0`, i.e. over everything that is buffered, the unterminated rest being
+    read as a last line; then `get_banner` returns -/
+def finish (header : List Str) (buf : Bytes) (pending : List Bytes) : Result :=
+  match scan header (splitLines buf) with
+  | (b, h, rest) => { banner := b, header := h, unread := rest.flatten, pending }
+
+/-- `get_banner` (after the D17 repair, commit 04fd9e5) on a connected socket that has no
+    banner yet, with `buf` unread in the buffer; the peer's data arrives as the given sequence
+    of `recv` results, after which (or at an empty one) the peer has stopped.  Each `recv`
+    result is appended to the buffer; complete lines are consumed as they become available, a
+    fragment without LF stays buffered until more data arrives or the peer stops. -/
+def getBanner (header : List Str) (buf : Bytes) : List Bytes → Result
+  | [] => finish header buf []
   | chunk :: later =>
-    if chunk.isEmpty then { banner := none, header, unread := [] } else
-    match scan header (splitLines chunk) with
-    | (some b, h, rest) => { banner := some b, header := h, unread := rest.flatten }
-    | (none, h, _) => getBanner h later
+    if chunk.isEmpty then finish header buf later else
+    match scan header (cutLines (buf ++ chunk)).1 with
+    | (some b, h, rest) =>
+      { banner := some b, header := h, unread := rest.flatten ++ (cutLines (buf ++ chunk)).2, pending := later }
+    | (none, h, _) => getBanner h (cutLines (buf ++ chunk)).2 later
 
 end Banner
 end SshAudit
